@@ -99,6 +99,22 @@ def run_lib(scn):
         elif mode == "chain-supertrend":
             ind = cls(**kw)
             Hexital("chain", candles, [I.Supertrend(period=scn["chain_period"]), ind]).calculate()
+        elif scn.get("sibling"):
+            # next to a sibling of the same class on the same candles (other input / period, own name suffix), fed live: the
+            # definition of an indicator does not depend on what else is registered (helper series must be private)
+            sb = scn["sibling"]
+            ind = cls(**kw)
+            sib = cls(**{**kw, **sb["kwargs"], "name_suffix": "sib"})
+            n, init = len(candles), min(sb.get("init", 0), len(candles))
+            members = [sib, ind] if sb.get("first", True) else [ind, sib]
+            hx = Hexital("sib", candles[:init], members)
+            hx.calculate()
+            i = init
+            for k in list(sb.get("chunks", [])) + [n]:
+                if i >= n:
+                    break
+                hx.append(candles[i:i + max(1, k)])
+                i += max(1, k)
         elif scn.get("live"):
             # built live: a (possibly empty) construction prefix, calculate(), then appends in chunks - optionally on a collapsing
             # timeframe; the definition is then over the independently resampled stream
@@ -305,7 +321,7 @@ def position_check(scn, x, out):
     """same input values placed at another index give the same readings (C04)"""
     kind, kw = scn["kind"], dict(scn["kwargs"])
     off = scn.get("position_offset")
-    if off is None or not scn["stream"] or scn.get("live"):   # position independence is examined on the batch-built scenarios
+    if off is None or not scn["stream"] or scn.get("live") or scn.get("sibling"):   # position independence is examined on the batch-built scenarios
         return None
     if kind == "VWMA":  # no input_value: window function, so candles put in front must not matter once the window has left them
         p = kw["period"]
@@ -659,7 +675,17 @@ def gen_scn(rng, idx, prop, params):
             meta["late"] = start > 0
         rows = [r + [x] for r, x in zip(rows, xs)]
     meta["live"] = "batch"
-    if mode == "field" and not meta["gaps"] and rng.random() < 0.3:
+    if mode == "field" and not meta["gaps"] and kind not in ("TR", "HighLowAverage", "OBV") and rng.random() < 0.12:
+        (init, chunks), shape = gen.gen_schedule(rng, len(rows), shape=rng.choice(["empty1", "one1", "few", "random"]))
+        other = {}
+        if "input_value" in kw:
+            other["input_value"] = rng.choice([f for f in ["open", "high", "low", "close"] if f != kw["input_value"]])
+        elif "period" in kw:
+            other["period"] = kw["period"] + rng.choice([1, 2])
+        if other:
+            scn["sibling"] = {"kwargs": other, "init": init, "chunks": chunks, "first": rng.random() < 0.6}
+            meta["live"] = "sibling"
+    if mode == "field" and not meta["gaps"] and "sibling" not in scn and rng.random() < 0.3:
         (init, chunks), shape = gen.gen_schedule(rng, len(rows), shape=rng.choice(["empty1", "one1", "few", "random", "random"]))
         scn["live"] = {"init": init, "chunks": chunks, "tf": None}
         meta["live"] = "appends"
